@@ -633,6 +633,8 @@ def independent_parsable(t):
 
 def c15_run(rep, rng, tier, term):
     viol, div = [], []
+    viol += c15_interrupted_flags()
+    rep.bump('flag queries interrupted by an exception', 3)
     alpha = ['0', '1', '3', '5', '8', ';', ' ', '+', 'm', '2']
     cases = []
     for n in range(1, 5 if tier == 'quick' else 6):
@@ -731,6 +733,40 @@ def c15_run(rep, rng, tier, term):
         if o.is_formatting_parsable() and not ep:
             viol.append({'oracle': 'C15.conj', 'case': {'history': ops, 'object': i}, 'msg': 'is_formatting_parsable() True with an unparsable setting in use'})
     return viol, div
+
+
+def c15_interrupted_flags():
+    """the memoised flags of a setting survive an interrupted computation: an exception that arrives while `valid` / `parsable` is
+    being computed (here: from a signal handler) must not leave a wrong answer behind - settings are shared between copies"""
+    import signal
+    class _Interrupt(Exception):
+        pass
+    def handler(signum, frame):
+        raise _Interrupt()
+    out = []
+    for (tail, want) in ((';31', (True, False)), ('', (True, False)), (';31A', (False, False))):
+        st = AnsiSetting(';'.join(['1'] * 600000) + tail)
+        holder = AnsiString('abc', st)
+        old = signal.signal(signal.SIGALRM, handler)
+        interrupted = False
+        try:
+            signal.setitimer(signal.ITIMER_REAL, 0.004)
+            try:
+                holder.is_formatting_parsable()
+            except _Interrupt:
+                interrupted = True
+        finally:
+            signal.setitimer(signal.ITIMER_REAL, 0)
+            signal.signal(signal.SIGALRM, old)
+        if not interrupted:
+            continue          # the machine was too fast this time: nothing learnt
+        got = (holder.is_formatting_valid(), holder.is_formatting_parsable())
+        cp = AnsiString(holder)
+        got2 = (cp.is_formatting_valid(), cp.is_formatting_parsable())
+        if got != want or got2 != want:
+            out.append({'oracle': 'C15.flags.interrupted', 'case': {'setting': "600000 x '1;' + %r" % tail.lstrip(';'), 'interrupted': 'is_formatting_parsable() by an exception from a signal handler'},
+                        'msg': 'after an interrupted first query (valid, parsable) = %s, on a copy %s; the text gives %s' % (got, got2, want)})
+    return out
 
 
 def c15_replay(v, term):
